@@ -43,7 +43,8 @@ ASSUMPTIONS = [
 ]
 REACH = {t: ["versions_all", "socket_seen", "socket_late", "socket_absent", "serial", "second_reset_fallback",
              "recovered_data_fault", "clean_failure_on_rst_fault", "second_connect_ok", "newer_than_known",
-             "double_fault", "rstack_doubled_in_one_read", "socket_late_queued", "startup_reset_again_on_same_connection"] for t in ("quick", "thorough")}
+             "double_fault", "rstack_doubled_in_one_read", "socket_late_queued", "startup_reset_again_on_same_connection",
+             "command_racing_a_reset"] for t in ("quick", "thorough")}
 SHARD_TIMEOUT = {"quick": 900, "thorough": 3600}
 VERSIONS = list(range(4, 15)) + [15, 16, 32]
 KINDS = ["drop", "corrupt", "dup", "dup1"]  # dup: copy in a read of its own; dup1: both copies in one read
@@ -131,13 +132,31 @@ def run_case(V, mode, vector, seed):
                     info["steps"].append((tag, "write_config", "ok"))
                     info["version"] = ez.ezsp_version
                     info["handler"] = type(getattr(ez, "_protocol", None)).__name__
+                    # ordinary use between resets: a raw command and a helper implemented by the version's handler
+                    step = "use1"
+                    await ez.getEui64()
+                    await ez.read_counters()
                     step = "reset"
                     trace.append(("mark", loop.time(), "second_reset"))
-                    await ez.reset()
+                    # another task (a keep-alive, an application request) issues a command while the reset is
+                    # in progress: whatever happens to it, it must not reach the freshly reset NCP ahead of the
+                    # version negotiation
+                    rst = asyncio.ensure_future(ez.reset())
+                    await asyncio.sleep(0)
+                    racer = asyncio.ensure_future(ez.nop())
+                    await rst
                     step = "version"
                     await ez.version()
                     step = "write_config2"
                     await ez.write_config({})
+                    step = "use2"
+                    await ez.getEui64()
+                    await ez.read_counters()
+                    try:
+                        await asyncio.wait_for(racer, 15)
+                        info["racer"] = "returned"
+                    except BaseException as ex_:  # noqa: BLE001
+                        info["racer"] = type(ex_).__name__
                     info["steps"].append((tag, "second_round", "ok"))
                     info["version2"] = ez.ezsp_version
                     # what ControllerApplication._reset() does on the same connection
@@ -147,6 +166,9 @@ def run_case(V, mode, vector, seed):
                     await ez.startup_reset()
                     step = "write_config3"
                     await ez.write_config({})
+                    step = "use3"
+                    await ez.getEui64()
+                    await ez.read_counters()
                     info["steps"].append((tag, "third_round", "ok"))
                     info["version3"] = ez.ezsp_version
                     return ez, None
@@ -339,6 +361,8 @@ def run_shard(desc) -> Acc:
                  "sock_late_queued": "socket_late_queued"}[mode])
         if V >= 15:
             acc.hit("newer_than_known")
+        if info.get("racer"):
+            acc.hit("command_racing_a_reset")
         if sum(1 for f in vec if f != "ok") == 2:
             acc.hit("double_fault")
         if any(f != "ok" for f in vec) or mode != "serial":
